@@ -178,7 +178,7 @@ def run(ctx):
     ]:
         out = ctx.path("cases-%s.ndjson" % tag)
         consts = dict(consts, Emit="TRUE")
-        res = ctx.tlc("Serialization", cfg, workers=WORKERS, timeout=6000, label=tag, json_out=out, consts=consts, heap="8g")
+        res = ctx.tlc("Serialization", cfg, workers=WORKERS, timeout=6000, label=tag, json_out=out, consts=consts, heap="6g" if ctx.tier == "thorough" else "3g")
         if res.json_count == 0 or res.json_count != res.distinct:
             raise vlib.Infra("case generation %s: %d cases for %d states" % (tag, res.json_count, res.distinct))
         files[tag] = out
